@@ -303,6 +303,8 @@ def value_matches(vs, rv, exact_debug=True, prefix=False):
         return ("i" in rv and rv["i"] == v)
     if k == "f64":
         return "f" in rv and abs(rv["f"] - v) < 2.220446049250313e-16
+    if "p" in rv:
+        return False
     if "s" in rv:
         dbg, raw = '"' + unh(rv["s"]) + '"', unh(rv["s"])
     elif "d" in rv:
@@ -463,6 +465,47 @@ def gen_overwrite_history(rng, pools, regex):
     return txt, struct, ops
 
 
+def gen_panic_history(rng, pools, regex):
+    """A span whose field value's Debug impl PANICS while the filter builds its span match (creation unwinds; the harness
+    catches it as an application would), followed by ordinary matching spans: the directive must keep working for them."""
+    pats = [(t, vs, good) for t, vs, good, _ in HIST_VALUES[regex] if vs[0] in ("lit", "pat")]
+    vt, vs, good = rng.choice(pats)
+    field = rng.choice(["x", "x", "y"])
+    l = rng.choice([3, 4, 4, 5])
+    tg = rng.choice([None, None, "app", "ap"])
+    sp = rng.choice(["sp", "sp", "sq", None])
+    txt = (tg or "") + "[" + (sp or "") + "{" + field + "=" + vt + "}]=" + rng.choice([LVN[l], LVN[l].upper(), str(l)])
+    struct = [{"target": tg, "span": sp, "fields": [(field, vs)], "level": l}]
+    if rng.random() < 0.4:
+        st = rng.choice([1, 2])
+        txt = rng.choice([txt + "," + LVN[st], LVN[st] + "," + txt])
+        struct.append({"target": None, "span": None, "fields": [], "level": st})
+    fit = [p for p in pools["spans"] if p[1].startswith(tg or "") and (sp is None or p[3] == sp)]
+    low = [p for p in fit if LEVEL_BY_NAME[p[2]] <= 3] or fit
+    probes = [e[0] for e in pools["events"] if LEVEL_BY_NAME[e[2]] == l] or [3]
+    ev = lambda t=0: ["event", t, rng.choice(probes)]
+    ops = []
+    nid = [0]
+
+    def span(t, vals, pool=None):
+        nid[0] += 1
+        ops.append(["span", t, rng.choice(pool or low)[0], nid[0], vals])
+        return nid[0]
+    if rng.random() < 0.5:                        # an ordinary matching span first, left entered or not
+        a = span(0, [[field, rng.choice(good)]])
+        ops += [["enter", 0, a], ev(), ["exit", 0, a]]
+    pt = rng.choice([0, 0, 1])
+    span(pt, [[field, {"p": 1}]], pool=fit)      # creation unwinds if the filter formats the value
+    ops.append(ev(pt))
+    b = span(0, [[field, rng.choice(good)]])
+    ops += [["enter", 0, b], ev(), ev(1), ["exit", 0, b], ev()]
+    if rng.random() < 0.5:
+        c = span(1, [])
+        ops += [["record", 1, c, [[field, rng.choice(good)]]], ["enter", 1, c], ev(1), ["exit", 1, c], ev(1)]
+    ops += [["drop", 0, b], ev()]
+    return txt, struct, ops
+
+
 def gen_history(rng, pools, struct, regex, wellnested=True, nthreads=2):
     """-> ops list (harness format).  Well-nested: per thread LIFO enter/exit, every enter exited, span handles dropped only
     when the span is not entered; values recorded at creation or later (also while entered)."""
@@ -588,6 +631,10 @@ def coq_rval(v):
         return "(RStr %s)" % coq_bytes(bytes.fromhex(v["s"]))
     if "d" in v:
         return "(RDebug %s)" % coq_bytes(bytes.fromhex(v["d"]))
+    if "p" in v:
+        # a Debug impl that panics when formatted: where the creation did not unwind, nobody formatted it, i.e. no Debug
+        # matcher looked at the field; any Debug text no generated matcher equals stands for it
+        return "(RDebug %s)" % coq_bytes(b"<never formatted>")
     return None
 
 
@@ -613,7 +660,10 @@ def coq_ops(ops, obs, pools):
             vals = coq_vals(op[4]) if k == "span" else "[]"
             if vals is None:
                 return None
-            out.append("OSpan %d %d %d %s %s" % (op[1], cs, op[3], coq_meta(m), vals))
+            if ob.get("panicked"):
+                out.append("OSpanAbort %d %d %s" % (op[1], cs, coq_meta(m)))       # creation unwound: nothing was stored
+            else:
+                out.append("OSpan %d %d %d %s %s" % (op[1], cs, op[3], coq_meta(m), vals))
             out += closes
         elif k == "record":
             vals = coq_vals(op[3])
@@ -840,6 +890,11 @@ def run(ctx):
             s, st, ops = gen_overwrite_history(rng, pools, regex)
             add({"k": "hist", "s": s, "struct": st, "regex": regex, "cfg": ["probe", "plain", "filter"][i % 3], "ops": ops, "wellnested": True,
                  "overwrite": True})
+        for i in range(40 * scale):
+            regex = rng.random() < 0.4
+            s, st, ops = gen_panic_history(rng, pools, regex)
+            add({"k": "hist", "s": s, "struct": st, "regex": regex, "cfg": ["probe", "plain", "filter"][i % 3], "ops": ops, "wellnested": True,
+                 "panicval": True})
     ctx.log("generated %d cases" % len(cases))
 
     # ---- implementation run(s)
@@ -970,7 +1025,7 @@ def run(ctx):
             if prof == "static-info":
                 rep.count("case:static-cap-build:" + k)
             else:
-                rep.count("case:" + k + (":malformed" if c.get("malformed") else "") + (":overwrite" if c.get("overwrite") else ""))
+                rep.count("case:" + k + (":malformed" if c.get("malformed") else "") + (":overwrite" if c.get("overwrite") else "") + (":panicking-debug" if c.get("panicval") else ""))
             if k in ("targets", "tapi"):
                 check_targets(rep, c, r, pool_metas, pool_targets, prof, fixed_f21)
                 if model is not None:
@@ -1288,10 +1343,30 @@ def check_hist(rep, c, r, pools, prof, fixed_f25):
     if not c.get("wellnested"):
         return
     plain = c["cfg"] == "plain"
-    spec = spec_history(c["struct"], c["ops"], pools, c["regex"], [bool(ob["delivered"]) for ob in r["obs"]])
+    # a panic is legitimate only where the case plants one: a span created with a value whose Debug impl panics, enabled by
+    # the filter, at a callsite some directive watches with a Debug-literal / pattern matcher on that field (the only
+    # matchers that format a Debug value).  It must happen exactly there, and nowhere else — in particular not later.
+    _, dyn_dirs = env_tables(c["struct"])
+    for i, (op, ob) in enumerate(zip(c["ops"], r["obs"])):
+        want_panic = False
+        if op[0] == "span":
+            pf = [n for n, v in op[4] if isinstance(v, dict) and "p" in v]
+            attempted = bool(ob["delivered"]) if plain else bool(ob["en"])
+            if pf and (attempted or ob.get("panicked")):
+                m, _cs = hist_meta(op, pools)
+                want_panic = any(dyn_cares(d, m) and any(n in pf and vs is not None and vs[0] in ("lit", "pat") for n, vs in d["fields"]) for d in dyn_dirs)
+        if ob.get("panicked"):
+            rep.count("hist:span-creation-unwound")
+        if bool(ob.get("panicked")) != want_panic:
+            viol(rep, "history op #%d %s under %r (%s): %s" % (i, op, c["s"], c["cfg"],
+                 "panicked (no Debug impl of this op panics: the filter is broken by an earlier, caught, panic)" if ob.get("panicked")
+                 else "did not unwind although a watched field's Debug impl panics"), c, r, prof, op_index=i)
+    spec = spec_history(c["struct"], c["ops"], pools, c["regex"], [bool(ob["delivered"]) and not ob.get("panicked") for ob in r["obs"]])
     for i, (op, ob, sp) in enumerate(zip(c["ops"], r["obs"], spec)):
         if sp is None:
             continue
+        if ob.get("panicked"):
+            continue            # the creation unwound in the filter's on_new_span; whether a layer saw it first depends on the stack
         rep.evaluations += 1
         got = ob["delivered"] if plain else ob["en"]
         if got is None:
